@@ -44,14 +44,28 @@ Section Evaluate.
   Inductive call :=
     | Fit (y : ydata) (x : xdata) (fhabs : list Z)      (* forecaster.fit(y_train, X_train, fh=fh) *)
     | Update (y : ydata) (x : xdata)                    (* forecaster.update(y_train, X_train) *)
-    | Predict (fhabs : list Z) (x : xdata).             (* forecaster.predict(fh, X=X_test) *)
+    | Predict (fhabs : list Z) (x : xdata)              (* forecaster.predict(fh, X=X_test) *)
+    (* forecaster.fit(y_train, X_train, fh=fh, **fit_params) with a NON-EMPTY fit_params dict; the
+       payload p stands for that dict (one integer keyword in the correspondence run) *)
+    | FitP (y : ydata) (x : xdata) (fhabs : list Z) (p : Z).
 
   Definition call_ydata (c : call) : ydata :=
-    match c with Fit y _ _ => y | Update y _ => y | Predict _ _ => [] end.
+    match c with Fit y _ _ => y | Update y _ => y | Predict _ _ => [] | FitP y _ _ _ => y end.
   Definition call_xtrain_times (c : call) : list Z :=
     match c with
-    | Fit _ (Some x) _ => map fst x | Update _ (Some x) => map fst x | _ => []
+    | Fit _ (Some x) _ => map fst x | Update _ (Some x) => map fst x
+    | FitP _ (Some x) _ _ => map fst x | _ => []
     end.
+
+  (* fit(..., **fit_params): fit_params None / {} (no keyword) or the dict coded by p *)
+  Definition fit_call (fp : option Z) (y : ydata) (x : xdata) (fhabs : list Z) : call :=
+    match fp with Some p => FitP y x fhabs p | None => Fit y x fhabs end.
+  (* the fit_params a fit event carries; None for calls that are not a fit *)
+  Definition fit_params_of (c : call) : option (option Z) :=
+    match c with Fit _ _ _ => Some None | FitP _ _ _ p => Some (Some p) | _ => None end.
+  (* the same history when every fit is given fit_params fp *)
+  Definition with_fit_params (fp : option Z) (c : call) : call :=
+    match fp, c with Some p, Fit y x f => FitP y x f p | _, _ => c end.
 
   Variable tm : Z -> Z.                  (* y.index[p] *)
   Variable yv : Z -> Q.                  (* y.iloc[p] *)
@@ -102,6 +116,42 @@ Section Evaluate.
   Definition evaluate_splits (st : strategy) (fhmin : Z) (ss : list split) :=
     eval_folds st fhmin 0 [] ss.
 
+  (* ---- evaluate(..., fit_params=fp): the SAME fit_params go to the fit call of EVERY fold ------- *)
+  Definition data_call_fp (fp : option Z) (st : strategy) (first : bool) (s : split) : call :=
+    if first || is_refit st
+    then fit_call fp (y_at (fst s)) (x_at (fst s)) (map tm (snd s))
+    else Update (y_at (fst s)) (x_at (fst s)).
+  Definition fold_step_fp (fp : option Z) (st : strategy) (fhmin : Z) (i : Z) (tr : list call)
+             (s : split) : row * list call :=
+    let tr2 := (tr ++ [data_call_fp fp st (i =? 0) s]) ++ [pred_call fhmin s] in
+    (row_of s tr2, tr2).
+  Fixpoint eval_folds_fp (fp : option Z) (st : strategy) (fhmin : Z) (i : Z) (tr : list call)
+           (ss : list split) : list row * list call :=
+    match ss with
+    | [] => ([], tr)
+    | s :: rest =>
+        let '(r, tr2) := fold_step_fp fp st fhmin i tr s in
+        let '(rs, trf) := eval_folds_fp fp st fhmin (i + 1) tr2 rest in
+        (r :: rs, trf)
+    end.
+  Definition evaluate_fp (fp : option Z) (sp : splitter) (st : strategy)
+    : res (list row * list call) :=
+    match splitter_splits sp with
+    | Ok ss => Ok (eval_folds_fp fp st (zmin_list (splitter_fh sp)) 0 [] ss)
+    | Err => Err
+    end.
+
+  (* NOT evaluate: fit_params reach only the fit of the first fold (regression C07-d) *)
+  Fixpoint eval_folds_first_only (fp : option Z) (st : strategy) (fhmin : Z) (i : Z)
+           (tr : list call) (ss : list split) : list row * list call :=
+    match ss with
+    | [] => ([], tr)
+    | s :: rest =>
+        let '(r, tr2) := fold_step_fp (if i =? 0 then fp else None) st fhmin i tr s in
+        let '(rs, trf) := eval_folds_first_only fp st fhmin (i + 1) tr2 rest in
+        (r :: rs, trf)
+    end.
+
   Definition evaluate (sp : splitter) (st : strategy) : res (list row * list call) :=
     match splitter_splits sp with
     | Ok ss => Ok (evaluate_splits st (zmin_list (splitter_fh sp)) ss)
@@ -112,5 +162,9 @@ End Evaluate.
 Arguments Fit {XV} y x fhabs.
 Arguments Update {XV} y x.
 Arguments Predict {XV} fhabs x.
+Arguments FitP {XV} y x fhabs p.
+Arguments fit_call {XV} fp y x fhabs.
+Arguments fit_params_of {XV} c.
+Arguments with_fit_params {XV} fp c.
 Arguments call_ydata {XV} c.
 Arguments call_xtrain_times {XV} c.
